@@ -302,9 +302,7 @@ func init() {
 			if r.zeroAtUnlock != nil {
 				cs = append(cs, r.zeroAtUnlock)
 			}
-			if r.zeroAtFree != nil {
-				cs = append(cs, r.zeroAtFree)
-			}
+			// Free: the library itself makes the region writable and wipes it before unmapping
 		}
 		return in.mkBoolT(in.tb.And(cs...))
 	})
